@@ -383,7 +383,7 @@ def _sites(db, chk, m):
             if dname is not None and loop is not None:
                 stores = [st_ for st_ in loop.body if isinstance(st_, ast.Assign) and isinstance(st_.targets[0], ast.Subscript) and ast.unparse(st_.targets[0].value) == dname]
                 spans = [st_ for st_ in loop.body for x_ in ast.walk(st_) if isinstance(x_, ast.Call) and isinstance(x_.func, ast.Attribute) and x_.func.attr == "_add_edge_helper"
-                         and "type" not in H.bind_call(helper, x_) and isinstance(st_, (ast.Assign, ast.Expr))]
+                         and ("type" not in H.bind_call(helper, x_) or ast.unparse(H.bind_call(helper, x_)["type"]).endswith("OPERATOR_KERNEL")) and isinstance(st_, (ast.Assign, ast.Expr))]
                 if len(stores) == 1 and spans:
                     i0, i1 = loop.body.index(spans[0]), loop.body.index(stores[0])
                     jumps = [" ".join(ast.unparse(st_).split())[:100] for st_ in loop.body[i0 + 1:i1] for x_ in ast.walk(st_) if isinstance(x_, (ast.Continue, ast.Break)) and not any(
